@@ -501,12 +501,13 @@ where
 
         // Delete from the database
         let log_type = self.log_type;
+        let owner_id: i64 = (&self.owner).into();
         self.client
             .conn_mut(move |conn| {
                 let tx = conn.transaction()?;
                 let events = EventEntity::new(&tx);
                 for id in delete_ids {
-                    events.delete_one(log_type, &id)?;
+                    events.delete_one(log_type, owner_id, &id)?;
                 }
                 tx.commit()?;
                 Ok(())
